@@ -36,14 +36,15 @@ impl Check for C07 {
         vec!["parses", "parses_with_2plus_errors", "parses_where_budget_ran_out", "parses_production_budget", "errors_at_eof", "accepted_unchanged", "budget_sweeps", "parses_at_the_cost_ceiling", "ceiling_inputs_repaired", "ceiling_inputs_given_up"]
     }
     fn case_cap_s(&self, _t: Tier) -> u64 {
-        120
+        45
     }
     fn hang_is_violation(&self) -> bool {
         true
     }
     fn run_case(&self, seed: u64, idx: u64, tier: Tier) -> CaseOut {
         let mut out = CaseOut::new();
-        if idx % 16 == 5 {
+        if (idx / 16 + idx) % 16 == 5 {
+            // (selector spread over all worker shards)
             return cost_ceiling_case(seed, idx);
         }
         let mut rng = Rng::derive(seed, "C07", idx, 0);
